@@ -124,7 +124,10 @@ CHECKS["C13"] = dict(
           "OnSvcConfigUpdate (config kept present), forcing a MOVED or ASK redirection of the next write (the key's slot is migrated right "
           "before it), and the banned commands; oracle: every reply equals the reference keyspace's reply on the uncompressed data; the "
           "bytes stored in the simulated node satisfy the same stored-form relation (nothing compressed while disabled); banned commands "
-          "get an error and no node logs an arrival. Non-trivial: some value was actually stored compressed (unit), and additionally the "
+          "get an error and no node logs an arrival. part e2e-concurrent: 1..6 writers re-writing and 1..6 readers reading 4..40 compressible "
+          "values for 50..600 rounds at once over the same backend connections (the filter compresses on the backend writer and "
+          "decompresses on the backend reader goroutine): every read equals what was written and the stored forms satisfy the relation. "
+          "Non-trivial: some value was actually stored compressed (unit), and additionally the "
           "write was redirected, or happened after a toggle, or was a multi-value command (e2e); distinct by canonical JSON."),
     assumptions=["values that themselves start with the magic number '(P$' are excluded by construction (the statement excludes them)",
                  "the snappy library (github.com/golang/snappy) is trusted as the decoder of the stored stream"],
@@ -132,6 +135,7 @@ CHECKS["C13"] = dict(
         dict(name="unit", test="TestUnit", kind="rapid", checks={"quick": 1500, "thorough": 60000}, shards=16, timeout={"quick": 600, "thorough": 3000}),
         dict(name="unit-concurrent", test="TestUnitConcurrent", kind="rapid", checks={"quick": 150, "thorough": 6000}, shards=4, timeout={"quick": 600, "thorough": 3000}),
         dict(name="banned", test="TestBanned", kind="rapid", checks={"quick": 500, "thorough": 5000}, shards=1),
+        dict(name="e2e-concurrent", test="TestE2EConcurrent", kind="rapid", checks={"quick": 8, "thorough": 400}, shards=16, timeout={"quick": 900, "thorough": 3400}, shrinktime="30s", crash_is_violation=True),
         dict(name="e2e", test="TestE2E", kind="rapid", checks={"quick": 80, "thorough": 4000}, shards=16, timeout={"quick": 900, "thorough": 3400}, shrinktime="60s", gomaxprocs=4, crash_is_violation=True),
     ],
 )
@@ -224,11 +228,14 @@ CHECKS["C03"] = dict(
           "equals the reference keyspace's reply, split commands being defined as their per-key commands combined in argument order, "
           "errors compared as errors; (ii) the multiset of commands logged by the simulated nodes equals exactly the expected per-key "
           "commands with byte-identical arguments, (iii) each at the node owning ref.Slot(key) (independent CRC16 + tag rule), and no "
-          "MOVED/ASK was issued after the first successful table load. Non-trivial: a split command spans >= 2 nodes, or a key/value "
+          "MOVED/ASK was issued after the first successful table load. part wide: MSET, then 5..60 rounds of EXISTS / TOUCH / MGET and a final "
+          "DEL over 2..256 keys spread over 2..6 nodes on 1..4 concurrent connections: the sum / array must be exact every time (the "
+          "children's answers arrive concurrently from several backend readers). Non-trivial: a split command spans >= 2 nodes, or a key/value "
           "contains CR/LF/NUL/braces, or a value >= 8 KiB, or >= 2 connections. Distinct by canonical JSON of the case."),
     assumptions=["commands handled only by the digest rule are checked for transport and routing, not for Redis semantics (the proxy does not interpret them either)",
                  "the simulator implements the cluster rules of the Redis Cluster specification that the proxy depends on; connections use disjoint key pools"],
     parts=[
+        dict(name="wide", test="TestWideSplit", kind="rapid", crash_is_violation=True, checks={"quick": 12, "thorough": 600}, shards=16, timeout={"quick": 900, "thorough": 3400}, shrinktime="30s"),
         dict(name="stable", test="TestStable", kind="rapid", crash_is_violation=True, checks={"quick": 150, "thorough": 4000}, shards=16, timeout={"quick": 900, "thorough": 3400}, shrinktime="60s", gomaxprocs=4),
     ],
 )
